@@ -96,21 +96,34 @@ def _exits(body):
     return bool(body) and isinstance(body[-1], (ast.Return, ast.Raise, ast.Continue, ast.Break))
 
 
-def r_safediv(idx, rep, rule="R-SAFEDIV", floor=8, unknown_ceiling=1):
+# one named exception per symbol, with the reason
+SAFEDIV_EXCEPTIONS = {
+    ("distance3d.distance._line::point_to_line_segment", "BinOp"):
+        "divides by |segment_end - segment_start|^2 without a test: a segment of length 0 is outside domain D (strictly positive sizes); inside the domain the "
+        "divisor is > 0 (upstream behaviour, left as it is)",
+}
+
+
+def r_safediv(idx, rep, rule="R-SAFEDIV", floor=8, unknown_ceiling=1, funcs=None):
     rep.rule(rule, "divisions by a magnitude (norm / sqrt / abs / sum / dot(x,x) / a callee's distance) in MPR, the closed-form support "
                    "functions and norm_vector sit on the non-zero side of a test of that magnitude (guard idioms G1-G4); such magnitudes are "
                    "exactly 0.0 for touching / coincident / axis-parallel placements, and x / 0.0 is NaN or inf (or ZeroDivisionError in compiled code)",
              floor=floor, unknown_ceiling=unknown_ceiling)
     sg = Signs(idx)
-    funcs = []
-    for mn in SCOPE_MODULES:
-        funcs.extend(f for f in idx.module(mn).functions.values())
-    for k in SCOPE_FUNCS:
-        funcs.append(idx.func(k))
+    if funcs is None:
+        funcs = []
+        for mn in SCOPE_MODULES:
+            funcs.extend(f for f in idx.module(mn).functions.values())
+        for k in SCOPE_FUNCS:
+            funcs.append(idx.func(k))
     for f in funcs:
         pm = None
         for node in ast.walk(f.node):
             d = None
+            if getattr(node, "lineno", None) is not None and (f.key, type(node).__name__) in SAFEDIV_EXCEPTIONS and isinstance(node, (ast.BinOp, ast.AugAssign)) \
+                    and isinstance(node.op, ast.Div):
+                rep.note("R-SAFEDIV exception %s: %s" % (f.key, SAFEDIV_EXCEPTIONS[(f.key, type(node).__name__)]))
+                continue
             if isinstance(node, ast.BinOp) and isinstance(node.op, ast.Div):
                 d = node.right
             elif isinstance(node, ast.AugAssign) and isinstance(node.op, ast.Div):
